@@ -256,6 +256,19 @@ class ExcFlow:
         for x in _walk_own(f.node):
             if isinstance(x, ast.Assign) and len(x.targets) == 1 and isinstance(x.targets[0], ast.Name) and x.targets[0].id == name:
                 vals.append(x.value)
+            elif isinstance(x, ast.Assign) and len(x.targets) == 1 and isinstance(x.targets[0], (ast.Tuple, ast.List)) \
+                    and any(isinstance(t, ast.Name) and t.id == name for t in x.targets[0].elts):
+                # `code, exc = (K, SomeError)`: one row of a table loop the loader spelled out (engine/unroll.py)
+                tg = x.targets[0].elts
+                if not (isinstance(x.value, (ast.Tuple, ast.List)) and len(x.value.elts) == len(tg)):
+                    return set()
+                cell = x.value.elts[[i for i, t in enumerate(tg) if isinstance(t, ast.Name) and t.id == name][0]]
+                dd = dotted(cell)
+                rr = self.prog.resolve_dotted(f.module, dd) if dd else None
+                rr = EXC_ALIASES.get(rr, rr) if rr else None
+                if not (rr and (rr in self.prog.classes or self.prog.known_class(rr))):
+                    return set()
+                out.add(rr)
             elif isinstance(x, ast.NamedExpr) and x.target.id == name:
                 vals.append(x.value)
             elif isinstance(x, (ast.For, ast.AsyncFor)) and any(isinstance(t, ast.Name) and t.id == name for t in ast.walk(x.target)):
